@@ -139,14 +139,21 @@ static void op_srcrm(int t, int s)
 	vh_bput(&line, "{\"e\":\"srcrm\",\"t\":%d,\"s\":\"%s\",\"rc\":\"%s\"", t, sock_name[s], rcname(rc));
 	end();
 }
+/* the deciding-records buffer is handed back to the next query, as the API allows ("reason must point to NULL or an
+ * allocated memory area"); every fourth query starts from a fresh NULL buffer */
+static struct pfx_record *why;
+static unsigned int wn, val_calls;
 static void op_val(int t, const struct lrtr_ip_addr *q, unsigned int len, uint32_t asn, bool with_reason, bool mgr_api)
 {
 	enum pfxv_state res = 99;
-	struct pfx_record *why = NULL;
-	unsigned int wn = 0;
 	int rc;
 
 	begin();
+	if (with_reason && val_calls++ % 4 == 3) {
+		lrtr_free(why);
+		why = NULL;
+		wn = 0;
+	}
 	if (with_reason)
 		rc = pfx_table_validate_r(&tabs[t], &why, &wn, asn, q, len, &res);
 	else
@@ -166,7 +173,6 @@ static void op_val(int t, const struct lrtr_ip_addr *q, unsigned int len, uint32
 			put_rec(&line, &why[i]);
 		}
 		vh_bput(&line, "]");
-		lrtr_free(why);
 	}
 	end();
 }
@@ -587,6 +593,8 @@ int main(int argc, char **argv)
 		return 2;
 	}
 	fclose(out);
+	lrtr_free(why);
+	why = NULL;
 	if (getenv("VH_COUNT_ALLOCS") || getenv("VH_FAIL_AT"))
 		printf("ALLOCS %ld LIVE %ld MISUSE %d\n", alloc_count, live_blocks, alloc_misuse);
 	return 0;
